@@ -14,6 +14,7 @@ non-decreasing on unary, sparse and binary mappings.
 import itertools
 
 from . import common, gen, project, tlc
+from .exc import exc_name
 
 OPS = ["<=", ">=", "<", ">", "==", "!="]
 CALLS = ["cardinality_geq", "cardinality_leq", "cardinality_eq", "cardinality_neq",
@@ -49,7 +50,7 @@ def run_builder(rid, cls, kind, call, lits, mk, args, extra):
         getattr(F, call)(mk(), *args)
         rec["outcome"] = "ok"
     except Exception as e:
-        rec["outcome"] = type(e).__name__
+        rec["outcome"] = exc_name(e)
     rec["nvars"] = int(F.number_of_variables())
     rec.update(added(F, cls))
     return rec
@@ -141,7 +142,7 @@ def instances(ck):
             rec["outcome"] = "ok"
         except Exception as e:
             rec["out"] = {"terms": [], "op": ">=", "deg": 0}
-            rec["outcome"] = type(e).__name__
+            rec["outcome"] = exc_name(e)
         recs.append(rec)
         # and through add_constraint: what is stored must be normal and equivalent
         from cnfgen.formula.opb import OPB
@@ -154,7 +155,7 @@ def instances(ck):
             rec2["outcome"] = "ok"
         except Exception as e:
             rec2["out"] = {"terms": [], "op": ">=", "deg": 0}
-            rec2["outcome"] = type(e).__name__
+            rec2["outcome"] = exc_name(e)
         recs.append(rec2)
     # --- mappings ------------------------------------------------------------
     forces_all = ["complete", "functional", "injective", "surjective", "nondecreasing"]
@@ -180,7 +181,7 @@ def instances(ck):
                 getattr(F, "force_%s_mapping" % fo)(f)
             rec["outcome"] = "ok"
         except Exception as e:
-            rec["outcome"] = type(e).__name__
+            rec["outcome"] = exc_name(e)
         p = project.formula(F)
         rec.update({"nvars": p["nvars"], "grp": p["grp"], "idx": p["idx"]})
         rec.update(added(F, cls))
